@@ -53,6 +53,7 @@ type Ctx struct {
 type pureCall struct {
 	call Event
 	res  []byte
+	dur  time.Duration
 }
 
 const maxPure = 3000
@@ -74,9 +75,9 @@ func (c *Ctx) pureRng() *rand.Rand {
 }
 
 // remember keeps a uniform sample of the stateless calls of this run.
-func (c *Ctx) remember(a, e Event) {
+func (c *Ctx) remember(a, e Event, dur time.Duration) {
 	c.pureSeen++
-	pc := pureCall{a, resultBytes(e)}
+	pc := pureCall{a, resultBytes(e), dur}
 	if len(c.pure) < maxPure {
 		c.pure = append(c.pure, pc)
 	} else if j := c.pureRng().Intn(c.pureSeen); j < maxPure {
@@ -91,12 +92,33 @@ func (c *Ctx) ConcurrentReplay() {
 	if !c.Conc || len(c.pure) == 0 {
 		return
 	}
-	// only calls that are deterministic when repeated sequentially take part
+	// only calls that are deterministic when repeated sequentially take part, within a time budget (each call is
+	// executed 16 more times on 8 goroutines: about 2 x its sequential cost in wall-clock time)
 	var calls []pureCall
+	var budget time.Duration
+	unstable := map[string]bool{} // an op with one call that does not repeat exactly is left out altogether
+	skipped := 0
 	for _, pc := range c.pure {
-		if string(resultBytes(Do(nil, pc.call))) == string(pc.res) {
-			calls = append(calls, pc)
+		if budget+3*pc.dur > 6*time.Second {
+			skipped++
+			continue
 		}
+		budget += 3 * pc.dur
+		if string(resultBytes(Do(nil, pc.call))) != string(pc.res) || string(resultBytes(Do(nil, pc.call))) != string(pc.res) {
+			unstable[gName(pc.call, "op")] = true
+			continue
+		}
+		calls = append(calls, pc)
+	}
+	stable := calls[:0]
+	for _, pc := range calls {
+		if !unstable[gName(pc.call, "op")] {
+			stable = append(stable, pc)
+		}
+	}
+	calls = stable
+	if len(calls) == 0 {
+		return
 	}
 	const workers = 8
 	type diff struct {
@@ -137,7 +159,7 @@ func (c *Ctx) ConcurrentReplay() {
 		}
 		return s
 	}
-	e := Event{"op": "ConcurrentReplay", "calls": len(calls), "dropped_nondeterministic": len(c.pure) - len(calls), "workers": workers, "executions": total,
+	e := Event{"op": "ConcurrentReplay", "calls": len(calls), "dropped_nondeterministic": len(c.pure) - len(calls) - skipped, "skipped_budget": skipped, "workers": workers, "executions": total,
 		"mismatches": len(diffs), "first": map[string]interface{}{"sequential": "", "concurrent": ""}}
 	if len(diffs) > 0 {
 		e["first"] = map[string]interface{}{"sequential": cut(diffs[0].seq), "concurrent": cut(diffs[0].conc)}
@@ -382,9 +404,10 @@ func Do(h *HState, a Event) Event {
 
 // Call executes a stateless call and adds its event to the batch.
 func (c *Ctx) Call(a Event) Event {
+	t0 := time.Now()
 	e := Do(nil, a)
 	if c.Conc {
-		c.remember(a, e)
+		c.remember(a, e, time.Since(t0))
 	}
 	c.Add(e)
 	return e
